@@ -35,6 +35,57 @@ def final_overrider(prog, cls, name):
     return None
 
 
+def declaring_class(prog, cls, name):
+    """First class on the chain cls, bases... that declares a method `name`
+    (what unqualified lookup from cls finds)."""
+    for c in [cls] + prog.all_bases(cls):
+        r = prog.records.get(c)
+        if r and any(m.get('name') == name for m in r.methods):
+            return c
+    return None
+
+
+def is_virtual_method(prog, cls, name):
+    """A method is virtual when any declaration of that name in the class or
+    its bases carries `virtual` or `override` (the out-of-line definition a
+    MemberExpr may point to does not repeat the keyword)."""
+    for c in [cls] + prog.all_bases(cls):
+        r = prog.records.get(c)
+        if not r:
+            continue
+        for m in r.methods:
+            if m.get('name') == name and (m.get('virtual') or any(
+                    x.get('kind') == 'OverrideAttr' for x in children(m))):
+                return True
+    return False
+
+
+def resolve_this_call(prog, dyn_cls, func, member_expr):
+    """Target definition of `this->name(...)` written in `func`, executed on an
+    object of dynamic type dyn_cls.  A call qualified with a class name
+    (base::name(...)) is non-virtual: recognised because the referenced
+    declaration is not the one unqualified lookup from func's class finds."""
+    name = member_expr.get('name')
+    d = func.tu.ids.get(member_expr.get('referencedMemberDecl'))
+    ref_cls = None
+    if d is not None:
+        pid = d.get('_semctx') or func.tu.parent_ctx.get(d['id'])
+        ref_cls = func.tu.qn.get(pid)
+    looked = declaring_class(prog, func.cls, name) if func.cls else None
+    if ref_cls and looked and ref_cls != looked:
+        fs = [f for f in prog.by_name(ref_cls + '::' + name) if f.body is not None]
+        if len(fs) == 1:
+            return fs[0]
+        return None
+    is_virtual = is_virtual_method(prog, ref_cls or func.cls, name)
+    if d is not None and not is_virtual:
+        # non-virtual member: static resolution
+        fs = [f for f in prog.by_name((ref_cls or '') + '::' + name) if f.body is not None]
+        if len(fs) == 1:
+            return fs[0]
+    return final_overrider(prog, dyn_cls, name)
+
+
 class Exec:
     """One executed statement of a creator: site + parsed statement + the
     function (final overrider) that issued it."""
@@ -94,15 +145,7 @@ def creation_trace(prog, cls, entry='create'):
                     recv = strip(children(callee)[0]) if children(callee) else None
                     if recv is not None and recv['kind'] == 'CXXThisExpr':
                         name = callee.get('name')
-                        # explicit base qualification (schema_x::create(db)) is a
-                        # non-virtual call
-                        d = func.tu.ids.get(callee.get('referencedMemberDecl'))
-                        target = None
-                        if d is not None and _is_qualified_call(callee):
-                            defs = prog.definitions_for(func.tu, d)
-                            target = defs[0] if defs else None
-                        else:
-                            target = final_overrider(prog, cls, name)
+                        target = resolve_this_call(prog, cls, func, callee)
                         if target is None:
                             raise AnalysisBroken('cannot resolve %s called from %s' % (name, func.qualname))
                         run(target, depth + 1)
